@@ -237,18 +237,21 @@ class Gen:
         ops, now = [], T0
         for i in range(r.randint(110, 170)):
             self.n += 1
-            a = dict(name=r.choice(["a", "b"]), value=f"v{self.n}", domain=r.choice([None, "example.com"]),
-                     path=r.choice([None, "/foo"]), secure=False, max_age=str(r.choice([3, 7, 20, 40, 400 + i])), expires=None)
+            a = dict(name=r.choice(["a", "b", "c", "d"]), value=f"v{self.n}", domain=r.choice([None, "example.com"]),
+                     path=r.choice([None, "/foo"]), secure=False,
+                     max_age=str(r.choice([300 + r.randint(0, 200), 300 + i, 100000 + i])), expires=None)
             ops.append(["set", ["http", r.choice(["example.com", "sub.example.com"]), "/"], [a]])
             x = r.random()
             if x < 0.08:
-                dt = r.choice([1, 3, 8, 21])
+                dt = r.choice([1, 2, 3])
                 now += dt
                 ops.append(["advance", dt])
             elif x < 0.16:
                 ops.append(["filter", ["http", r.choice(["example.com", "sub.example.com"]), r.choice(["/", "/foo"])]])
-            elif x < 0.18:
+            elif x < 0.17:
                 ops.append(["save_load"])
+        # let every short deadline pass before the final sweep
+        ops.append(["advance", 1000])
         return {"unsafe": False, "t0": T0, "ops": ops, "sweep": True}
 
     def focused(self):
@@ -691,7 +694,7 @@ def run(ctx):
         ctx.close_suite("corpus", n)
         g = Gen(ctx.rng)
         nhist = 700 if ctx.quick else 12000
-        cases = [g.history() for _ in range(nhist)] + [g.churn() for _ in range(4 if ctx.quick else 60)]
+        cases = [g.history() for _ in range(nhist)] + [g.churn() for _ in range(6 if ctx.quick else 60)]
         n = 0
         batch = 100
         for i in range(0, len(cases), batch):
